@@ -692,3 +692,6 @@ def run(chk):
         chk.guard("R11.8", "key-parsers", check_key_parsers, chk, F)
     if not ONLY or "9" in ONLY:
         chk.guard("R11.9", "tree-height", check_tree_height, chk, F)
+    if not ONLY or "0" in ONLY:
+        from . import entrypoints
+        chk.guard("R11.10", "gated-constructors", entrypoints.check_fn_constructors, chk, F, "R11.10")
